@@ -88,6 +88,10 @@ def build(kind="asan"):
     outdir = os.path.join(CACHE, hsh)
     exe = os.path.join(outdir, "drv" if what == "drv" else "econftool")
     if os.path.exists(exe):
+        try:
+            os.utime(outdir)          # in use: keep it away from the eviction below
+        except OSError:
+            pass
         return exe
     os.makedirs(outdir, exist_ok=True)
     libsrc = sorted(glob.glob(os.path.join(REPO, "lib", "*.c")))
@@ -106,10 +110,12 @@ def build(kind="asan"):
         raise ToolFailure("build (%s) failed:\n%s" % (kind, p.stderr[-4000:]))
     os.replace(exe + ".tmp", exe)
     log("[build] %s in %.1fs -> %s" % (kind, time.time() - t0, exe))
-    # keep the cache small: drop builds older than the 12 most recent
+    # keep the cache small: drop builds beyond the 40 most recently used ones, but never one used in the last 6 hours
+    # (a long-running check of another process may still be executing it)
     dirs = sorted((d for d in glob.glob(os.path.join(CACHE, "*")) if os.path.isdir(d)), key=os.path.getmtime)
-    for d in dirs[:-12]:
-        shutil.rmtree(d, ignore_errors=True)
+    for d in dirs[:-40]:
+        if time.time() - os.path.getmtime(d) > 6 * 3600:
+            shutil.rmtree(d, ignore_errors=True)
     return exe
 
 
